@@ -362,3 +362,9 @@ Theorem generated_posting_account_in_force :
   end.
 Proof. exact account_in_force. Qed.
 Print Assumptions generated_posting_account_in_force.
+
+(* the model's rule_made (ITEM_GENERATED without POST_CALCULATED) is the test extend_xact applies,
+   read from the source on every run *)
+Theorem skip_test_is_rule_made : src_extend_skip = SkipGeneratedNotCalculated.
+Proof. reflexivity. Qed.
+Print Assumptions skip_test_is_rule_made.
